@@ -27,6 +27,17 @@ pub fn run_check(context: &CheckContext) -> CheckOutcome {
     let mut witness_report = CampaignReport { name: "known-finding-witnesses".to_string(), engine: "SEQ".to_string(), rule: "deterministic replay of the witness history of every open known finding of this property".to_string(), ..CampaignReport::default() };
     for finding in context.known.iter().filter(|finding| finding.property == context.property && finding.status == "open") {
         let Some(witness) = &finding.witness_case else { continue };
+        if witness["engine"] == "CONC-F10" {
+            // directed concurrent witness (timing widened to tens of milliseconds through a schedule point); a few attempts
+            witness_report.evaluations += 1;
+            for _ in 0..5 {
+                if let Some(failure) = crate::conc::f10_witness() {
+                    if let Relevance::Known(id) = context.relevance(&failure) { *witness_report.known_findings_hit.entry(id).or_insert(0) += 1; }
+                    break;
+                }
+            }
+            continue;
+        }
         let (Ok(case), policy) = (decode_case::<crate::case::SeqCase>(&witness["case"]), serde_json::from_value::<crate::model::Policy>(witness["policy"].clone()).unwrap_or_default()) else { continue };
         let result = crate::seq::run_seq_case(&case, &policy);
         witness_report.evaluations += 1;
@@ -67,7 +78,7 @@ pub fn run_check(context: &CheckContext) -> CheckOutcome {
         outcome.reports.push(report);
         if let Some(violation) = violation { outcome.violations.push(violation); }
     }
-    if outcome.violations.is_empty() && matches!(context.property.as_str(), "C01" | "C04" | "C05" | "C07" | "C11") { return run_conc_check(context, outcome); }
+    if outcome.violations.is_empty() && matches!(context.property.as_str(), "C01" | "C04" | "C05" | "C07" | "C09" | "C10" | "C11" | "C16" | "C17") { return run_conc_check(context, outcome); }
     outcome
 }
 
@@ -166,6 +177,14 @@ pub fn conc_campaigns(property: &str) -> Vec<ConcCampaign> {
         "C02x" => vec![],
         "C07" => vec![ConcCampaign { name: "conc-put-contention", profile: PutContention, cases_quick: 600, cases_thorough: 8000, nt: |s| s.puts_on_settled_keys >= 3 && s.threads >= 3,
             rule: "keys are never deleted, never given a TTL and the cache is far from full, so once a key's first write is acknowledged it stays readable; 3-8 threads then race puts (all four variants), in-place upserts, reads and held get_ref guards on those keys with 2 store shards; every such put must be refused with KeyAlreadyExists and no read may ever return its value; non-trivial = >= 3 puts hit an already settled key from >= 3 threads" }],
+        "C09" => vec![ConcCampaign { name: "conc-expiry", profile: General, cases_quick: 500, cases_thorough: 6000, nt: |s| s.ttl_writes >= 1 && s.sweeps_during_run && s.read_after_completed_overwrite,
+            rule: "generated concurrent programs with TTL writes and a clock thread; history checker: a returned value whose write carried a TTL must not be served once the clock is certainly past the latest possible deadline of that write (clock values bracketed by stamps); non-trivial = an accepted TTL write, a clock thread, and a value-returning read after a completed write" }],
+        "C10" => vec![ConcCampaign { name: "conc-sweeps", profile: EvictVsSweep, cases_quick: 400, cases_thorough: 6000, nt: |s| s.rotated && s.swept_during_run && s.ttl_writes >= 1,
+            rule: "small cache of short-lived TTL keys, writers, evictions and a clock thread driving sweeps concurrently with worker commands; at quiescence the harness performs one complete sweep of every shard: no key whose deadline lay before that rotation may remain, every held TTL key must be indexed under its current deadline and no key without TTL may be indexed; non-trivial = the final rotation completed, the sweeper collected keys during the run and a TTL write was accepted" }],
+        "C16" => vec![ConcCampaign { name: "conc-counters", profile: General, cases_quick: 500, cases_thorough: 6000, nt: |s| s.threads >= 2 && s.evicted_or_rejected,
+            rule: "generated concurrent programs; at quiescence hits + misses == lookups issued, KeysAdded - KeysDeleted == keys held, WeightAdded - WeightRemoved == weight used; non-trivial = >= 2 threads and at least one put refused for space" }],
+        "C17" => vec![ConcCampaign { name: "conc-no-panic", profile: Deadlock, cases_quick: 400, cases_thorough: 6000, nt: |s| s.threads >= 3 && s.delays > 0,
+            rule: "generated concurrent programs with maximal sharing; no call may panic, no background thread may die (panic hook on every thread), worker / consumer / sweeper must pass a liveness probe at the end; non-trivial = >= 3 threads with injected delays" }],
         "C11" => vec![ConcCampaign { name: "conc-bursts", profile: Bursts, cases_quick: 800, cases_thorough: 8000, nt: |s| s.queue_full_sends && s.concurrent_in_flight,
             rule: "generated bursts of unawaited writes from 1-8 threads, queue size 1/2/3/8, worker and senders delayed by injection; trace checker: every queued command executed exactly once, executions never overlap, per-thread and real-time cross-thread order preserved, statuses match; when the last acknowledgement of a thread completes all earlier ones are complete; non-trivial = a send waited on a full queue AND two threads had commands in flight at once" }],
         "C13" => vec![ConcCampaign { name: "conc-shutdown", profile: Shutdown, cases_quick: 1000, cases_thorough: 10_000, nt: |s| s.shutting_down_acks >= 1 && s.real_acks >= 1,
